@@ -68,7 +68,7 @@ func run(c *vf.Ctx, si int) {
 			hf[fmt.Sprintf("V%d", v)] = 1 << 40
 		}
 	}
-	w := rig.NewWorld(name, c.Scratch(), rig.WorldOpts{Public: true, NAccts: 9, Mempool: "recorder", HF: hf})
+	w := rig.NewWorld(name, c.Scratch(), rig.WorldOpts{Public: true, NAccts: 9, Mempool: "recorder", HF: hf, Balance: new(big.Int).Mul(big.NewInt(6000000), rig.Aergo).String()})
 	cb := rig.NewAcct(name+"/cb", 0)
 	w.Tmpl.Coinbase = cb.B58()
 	defer w.CloseAll()
@@ -143,7 +143,7 @@ func run(c *vf.Ctx, si int) {
 			}
 			switch pick {
 			case 0, 1: // stake
-				amt := new(big.Int).Mul(big.NewInt([]int64{10000, 10000, 12000, 500, 25000}[r.Intn(5)]), rig.Aergo)
+				amt := new(big.Int).Mul(big.NewInt([]int64{10000, 10000, 12000, 500, 25000, 1300000, 70000}[r.Intn(7)]), rig.Aergo)
 				o := op{desc: fmt.Sprintf("stake a%d %s", a, amt), a: a, kind: "stake", amount: amt}
 				if locked {
 					o.mustRefuse = "staking inside the lock period"
@@ -154,7 +154,15 @@ func run(c *vf.Ctx, si int) {
 				ops = append(ops, o)
 			case 2, 3: // unstake
 				var amt *big.Int
-				switch r.Intn(4) {
+				switch r.Intn(6) {
+				case 4, 5:
+					// down to a round amount whose byte length may differ from the current one
+					// (2^80 aer ~ 1.2M aergo, 2^72 ~ 4722 aergo ... byte-length boundaries of the amounts)
+					target := new(big.Int).Mul(big.NewInt([]int64{1000000, 65000, 10000, 20000}[r.Intn(4)]), rig.Aergo)
+					amt = new(big.Int).Sub(m.staked, target)
+					if amt.Sign() <= 0 {
+						amt = new(big.Int).Div(m.staked, big.NewInt(3))
+					}
 				case 0:
 					amt = new(big.Int).Set(m.staked) // everything
 				case 1:
